@@ -999,11 +999,46 @@ theorem ctMultiplyDyadic_refuse (l : Level) (a b : Ct) (h : a.ntt = false ∨ b.
   unfold ctMultiplyDyadic
   rw [if_pos (by rcases h with h | h <;> simp [h])]
 
-/-- V3 residues: the dyadic product of canonical NTT-form ciphertexts of ANY sizes n1, n2 succeeds, has n1 + n2 − 1 canonical
-    polynomials, and residue (i, j) of polynomial k is Σ_{x + y = k} a_x[i][j] · b_y[i][j] mod q_i (the pairs are those of
+/-- the size check of `Ciphertext::resize_internal` with the regenerated limits: a size is accepted iff it is 0 or in [2, 16]
+    (re-checked whenever `Gen/Constants.lean` changes) -/
+theorem ctResizeRefuses_eq_false_iff (s : Nat) : ctResizeRefuses s = false ↔ (s = 0 ∨ (2 ≤ s ∧ s ≤ 16)) := by
+  unfold ctResizeRefuses
+  by_cases h1 : s < 2 <;> by_cases h2 : s = 0 <;> by_cases h3 : s > 16 <;>
+    simp [Gen.HE_CIPHERTEXT_SIZE_MIN, Gen.HE_CIPHERTEXT_SIZE_MAX, h1, h2, h3] <;> omega
+
+theorem ctResizeRefuses_eq_true_iff (s : Nat) : ctResizeRefuses s = true ↔ (s = 1 ∨ 16 < s) := by
+  rw [← Bool.not_eq_false, ctResizeRefuses_eq_false_iff]
+  omega
+
+/-- V3 refusal (size): a destination size n1 + n2 − 1 that `resize` refuses (1, or more than 16) is refused by the dyadic product,
+    whatever the operands are -/
+theorem ctMultiplyDyadic_refuse_size (l : Level) (a b : Ct) (h : ctResizeRefuses (a.polys.size + b.polys.size - 1) = true) :
+    ctMultiplyDyadic l a b = .error .refused := by
+  unfold ctMultiplyDyadic
+  split
+  · rfl
+  · simp only []
+    split
+    · rfl
+    · first | rfl | rw [if_pos h]
+
+/-- a successful dyadic product had an admissible destination size -/
+theorem ctMultiplyDyadic_ok_size {l : Level} {a b r : Ct} (hr : ctMultiplyDyadic l a b = .ok r) :
+    ctResizeRefuses (a.polys.size + b.polys.size - 1) = false := by
+  cases h : ctResizeRefuses (a.polys.size + b.polys.size - 1) with
+  | false => rfl
+  | true => rw [ctMultiplyDyadic_refuse_size l a b h] at hr; cases hr
+
+theorem ctMultiplyDyadic_ok_le16 {l : Level} {a b r : Ct} (hr : ctMultiplyDyadic l a b = .ok r) :
+    a.polys.size + b.polys.size - 1 ≤ 16 := by
+  have := (ctResizeRefuses_eq_false_iff _).mp (ctMultiplyDyadic_ok_size hr)
+  omega
+
+/-- V3 residues: the dyadic product of canonical NTT-form ciphertexts of ANY sizes n1, n2 with n1 + n2 − 1 ≤ 16 (a larger product is
+    refused as in the code: `ctMultiplyDyadic_refuse_size`) succeeds, has n1 + n2 − 1 canonical polynomials, and residue (i, j) of polynomial k is Σ_{x + y = k} a_x[i][j] · b_y[i][j] mod q_i (the pairs are those of
     `mulPairs`, characterised by `mulPairs_spec`) -/
 theorem ctMultiplyDyadic_spec {l : Level} (hq : c02v_QsWF l) {a b : Ct} (ha : CtCanon l a) (hb : CtCanon l b)
-    (hna : a.ntt = true) (hnb : b.ntt = true) :
+    (hna : a.ntt = true) (hnb : b.ntt = true) (hsz16 : a.polys.size + b.polys.size - 1 ≤ 16) :
     ∃ r, ctMultiplyDyadic l a b = .ok r ∧ r.polys.size = a.polys.size + b.polys.size - 1 ∧ r.ntt = true ∧ r.cf = a.cf ∧
       (∀ k, k < a.polys.size + b.polys.size - 1 → RnsCanon l (r.polys.getD k #[])) ∧
       (a.polys.size + b.polys.size - 1 ≤ 16 → CtCanon l r) ∧
@@ -1041,7 +1076,7 @@ theorem ctMultiplyDyadic_spec {l : Level} (hq : c02v_QsWF l) {a b : Ct} (ha : Ct
   · unfold ctMultiplyDyadic
     rw [if_neg (by simp [hna, hnb])]
     simp only []
-    rw [if_neg (by omega)]
+    rw [if_neg (by omega), if_neg (by rw [Bool.not_eq_true, ctResizeRefuses_eq_false_iff]; omega)]
     erw [hys]; rfl
   · intro k hk'
     exact (hk k hk').1
@@ -1066,7 +1101,7 @@ theorem ctMultiplyDyadic_phase {S : Type} [CommRing S] {l : Level} (hq : c02v_Qs
     by_contra h; rw [ctMultiplyDyadic_refuse l a b (Or.inl (by simpa using h))] at hr; cases hr
   have hnb : b.ntt = true := by
     by_contra h; rw [ctMultiplyDyadic_refuse l a b (Or.inr (by simpa using h))] at hr; cases hr
-  obtain ⟨r', hr', hsz, _, _, _, _, hres⟩ := ctMultiplyDyadic_spec hq ha hb hna hnb
+  obtain ⟨r', hr', hsz, _, _, _, _, hres⟩ := ctMultiplyDyadic_spec hq ha hb hna hnb (ctMultiplyDyadic_ok_le16 hr)
   rw [hr] at hr'
   obtain rfl := Except.ok.inj hr'
   have h2a := ha.two_le; have h2b := hb.two_le
@@ -1096,7 +1131,7 @@ theorem ctMultiplyDyadic_coeff {l : Level} (hl : l.WF) {a b r : Ct} (ha : CtCano
     by_contra h; rw [ctMultiplyDyadic_refuse l a b (Or.inl (by simpa using h))] at hr; cases hr
   have hnb : b.ntt = true := by
     by_contra h; rw [ctMultiplyDyadic_refuse l a b (Or.inr (by simpa using h))] at hr; cases hr
-  obtain ⟨r', hr', _, _, _, hcan, _, hres⟩ := ctMultiplyDyadic_spec hq ha hb hna hnb
+  obtain ⟨r', hr', _, _, _, hcan, _, hres⟩ := ctMultiplyDyadic_spec hq ha hb hna hnb (ctMultiplyDyadic_ok_le16 hr)
   rw [hr] at hr'
   obtain rfl := Except.ok.inj hr'
   have h2a := ha.two_le; have h2b := hb.two_le
@@ -1206,7 +1241,7 @@ theorem bgvMultiply_canon {l : Level} (hq : c02v_QsWF l) (ht : l.t.WF) {a b : Ct
     (hna : a.ntt = true) (hnb : b.ntt = true) (hs : l.scheme = .bgv) (h16 : a.polys.size + b.polys.size - 1 ≤ 16)
     (c1 : Nat.Coprime a.cf l.t.value) (c2 : Nat.Coprime b.cf l.t.value) :
     ∃ r, bgvMultiply l a b = .ok r ∧ CtCanon l r ∧ r.cf = (a.cf * b.cf) % l.t.value ∧ Nat.Coprime r.cf l.t.value := by
-  obtain ⟨c, hc, _, _, _, _, hcan, _⟩ := ctMultiplyDyadic_spec hq ha hb hna hnb
+  obtain ⟨c, hc, _, _, _, _, hcan, _⟩ := ctMultiplyDyadic_spec hq ha hb hna hnb h16
   have hfa := ha.cf; have hfb := hb.cf
   unfold c02v_cfOk at hfa hfb
   rw [hs] at hfa hfb
@@ -1417,7 +1452,7 @@ theorem c02v_exCt2_canon4 : CtCanon c02v_exLevel4 c02v_exCt2 :=
 theorem c02v_bgvMultiply_cf_zero_witness :
     ∃ a r, CtCanon c02v_exLevel4 a ∧ bgvMultiply c02v_exLevel4 a c02v_exCt2 = .ok r ∧ r.cf = 0 := by
   have ha : CtCanon c02v_exLevel4 c02v_exCt2 := c02v_exCt2_canon4
-  obtain ⟨c, hc, _⟩ := ctMultiplyDyadic_spec c02v_exLevel4_qsWF ha ha rfl rfl
+  obtain ⟨c, hc, _⟩ := ctMultiplyDyadic_spec c02v_exLevel4_qsWF ha ha rfl rfl (by decide)
   refine ⟨_, _, ha, bgvMultiply_spec c02v_exT4_wf hc (by decide) (by decide), ?_⟩
   show (2 * 2) % 4 = 0
   rfl
@@ -1462,7 +1497,7 @@ example : ∃ r, ctNegate c02v_exLevel c02v_exCt = .ok r ∧ CtCanon c02v_exLeve
   ⟨r, h, c⟩
 
 example : ∃ r, ctMultiplyDyadic c02v_exLevel c02v_exCt c02v_exCt = .ok r ∧ r.polys.size = 5 :=
-  let ⟨r, h, sz, _⟩ := ctMultiplyDyadic_spec c02v_exLevel_qsWF c02v_exCt_canon c02v_exCt_canon rfl rfl
+  let ⟨r, h, sz, _⟩ := ctMultiplyDyadic_spec c02v_exLevel_qsWF c02v_exCt_canon c02v_exCt_canon rfl rfl (by decide)
   ⟨r, h, sz⟩
 
 example : ∃ r, ctTranslateBalanced c02v_exLevel c02v_exCt c02v_exCt2 true = .ok r :=
